@@ -393,6 +393,15 @@ class SpecEnv(object):
         val_contains = U("val_contains", Val, Val, Bool)
         dict_of = U("dict_of", Val, Val)
         iter_items = U("iter_items", Val, VL)
+        meta_attr = U("meta_attr", Val, Bytes, Val)
+        py_id = U("py_id", Val, Int)
+        is_module = U("is_module", Val, Bool)
+        is_class = U("is_class", Val, Bool)
+        in_sys_modules = U("in_sys_modules", Val, Bool)
+        netref_conn = U("netref_conn", Val, Val)
+        netref_idpack = U("netref_idpack", Val, Val)
+        id_pack = U("id_pack", Val, Val)
+        decoded = U("decoded", Bytes, Val)
         subclass_inst = U("subclass_inst", Int, Int, Bool)
 
         def p_be32(ctx, n):
@@ -509,6 +518,45 @@ class SpecEnv(object):
             return b2v(z3.And(conj)) if conj else True
         P["all_getattr_on"] = p_all_getattr_on
         P["iter_items"] = lambda ctx, v: SVL(iter_items(to_val(v)))
+        P["meta_attr"] = lambda ctx, v, n: SVal(meta_attr(to_val(v), zseq(n)))
+        P["py_id"] = lambda ctx, v: SInt(py_id(to_val(v)))
+        P["is_module"] = lambda ctx, v: b2v(is_module(to_val(v)))
+        P["is_class"] = lambda ctx, v: b2v(is_class(to_val(v)))
+        P["netref_conn"] = lambda ctx, v: SVal(netref_conn(to_val(v)))
+        def p_netref_idpack(ctx, v):
+            r = SVal(netref_idpack(to_val(v)))
+            # T-NETREF: a proxy's id pack is the (decoded, hence plain and re-encodable) value _unbox created it with
+            if not getattr(self, "_in_nip", False):
+                self._in_nip = True
+                try:
+                    for nm in ("plain", "sized"):
+                        self.fact(ops._z(truth(self.rec_app(ctx, self.recs[nm], [r]))))
+                finally:
+                    self._in_nip = False
+            return r
+        P["netref_idpack"] = p_netref_idpack
+        P["id_pack"] = lambda ctx, v: SVal(id_pack(to_val(v)))
+        P["decoded"] = lambda ctx, b: SVal(decoded(zseq(b) if not isinstance(b, SVal) else Val.vby(b.z)))
+
+        def p_is_netref(ctx, v):
+            import rpyc.core.netref as nr
+            from .sorts import type_id
+            z = to_val(v)
+            isn = z3.And(Val.is_VRef(z), subclass_inst(Val.oid(z), type_id(nr.BaseNetref)))
+            # every proxy has the proxy slots
+            self.fact(z3.Implies(isn, z3.And(has_attr(z, seq_lit("____id_pack__")), has_attr(z, seq_lit("____conn__")))))
+            return b2v(isn)
+        P["is_netref"] = p_is_netref
+        P["is_netref_like"] = lambda ctx, v: b2v(has_attr(to_val(v), seq_lit("____id_pack__")))
+
+        def p_is_id_pack(ctx, v):
+            z = to_val(v)
+            l = Val.titems(z)
+            return b2v(z3.And(Val.is_VTuple(z), VL.is_cons(l), VL.is_cons(VL.tl(l)), VL.is_cons(VL.tl(VL.tl(l))),
+                              VL.tl(VL.tl(VL.tl(l))) == VL.nil, Val.is_VStr(VL.hd(l)), Val.is_VInt(VL.hd(VL.tl(l))),
+                              Val.is_VInt(VL.hd(VL.tl(VL.tl(l))))))
+        P["is_id_pack"] = p_is_id_pack
+        P["pair"] = lambda ctx, a, b: SVal(Val.VTuple(VL.cons(to_val(a), VL.cons(to_val(b), VL.nil))))
         P["sent_part"] = lambda ctx, a, b: SBytes(sent_part(zseq(a), zseq(b)))
         P["zdecomp"] = lambda ctx, d: SBytes(zdecomp(zseq(d)))
         P["zvalid"] = lambda ctx, d: b2v(zvalid(zseq(d)))
@@ -596,6 +644,17 @@ class SpecEnv(object):
             kk = to_val(k)
             return b2v(h == z3.Store(z3.K(Val, z3.BoolVal(False)), kk, z3.Select(h, kk)))
         P["only_key"] = p_only_key
+
+        def p_all_slots_ok(ctx, d):
+            """class invariant of the reference-counting table: every stored slot is a well-formed [object, count >= 0]"""
+            m, h = ctx.engine.heap_get(ctx.st, d, "map").z, ctx.engine.heap_get(ctx.st, d, "has").z
+            q = z3.Const("q!slots", Val)
+            v = z3.Select(m, q)
+            l = Val.titems(v)
+            ok = z3.And(Val.is_VTuple(v), VL.is_cons(l), VL.is_cons(VL.tl(l)), VL.tl(VL.tl(l)) == VL.nil,
+                        Val.is_VInt(VL.hd(VL.tl(l))), Val.vi(VL.hd(VL.tl(l))) >= 0)
+            return b2v(z3.ForAll([q], z3.Implies(z3.Select(h, q), ok), patterns=[z3.Select(h, q)]))
+        P["all_slots_ok"] = p_all_slots_ok
 
         def p_unchanged_except(ctx, d, key):
             """every entry of dict d other than `key` is what it was at function entry"""
